@@ -26,19 +26,35 @@ CHECKS["C18"] = c10.with_client(c18.check)
 
 
 def replay(ctx, path):
-    """Re-record the configuration of a replay file from the CURRENT tree and validate it alone."""
+    """Re-examine a recorded violation against the CURRENT tree.  A violation that carries a
+    single-object trace is re-recorded and validated alone (with the trace specification of its
+    property); anything else (optimality claims, action pairs, planner tables, sibling streams)
+    re-runs the property's check and looks for the same clause."""
     d = json.load(open(path))
     v = d["smallest"]
-    t = v["trace"]
-    cfg = {"cls": t["cls"], "p": t["p"], "N": t["N"], "passes": t.get("passes", 1)}
-    if "calls" in t:
-        cfg["calls"] = t["calls"]
-    tr = record._work(cfg)
-    verdicts = fw.validate(ctx, [tr])
-    hits = [x for x in verdicts[0]["viol"] if x[0] == d["clause"]]
-    print(json.dumps({"config": fw.describe(tr), "clause": d["clause"], "reproduced": bool(hits),
-                      "all_failing_clauses": verdicts[0]["viol"]}, indent=1))
+    t = v.get("trace", {})
+    pid = d.get("property", ctx.pid)
+    module = {"C13": "TraceTwoLevel", "C19": "TracePeriodic", "C17": "TraceDomain"}.get(pid, "TraceExec")
+    single = "cls" in t and "p" in t and "ev" in t and pid not in ("C14", "C15", "C16") \
+        and not d["clause"].endswith(("stream_unchanged", ".optimal", ".table"))
+    if single:
+        cfg = {"cls": t["cls"], "p": t["p"], "N": t["N"], "passes": t.get("passes", 1)}
+        if "calls" in t:
+            cfg["calls"] = [tuple(c) for c in t["calls"]]
+        tr = record._work(cfg)
+        verdicts = fw.validate(ctx, [tr], module=module)
+        hits = [x for x in verdicts[0]["viol"] if x[0] == d["clause"]]
+        print(json.dumps({"config": fw.describe(tr), "clause": d["clause"], "reproduced": bool(hits),
+                          "all_failing_clauses": verdicts[0]["viol"]}, indent=1))
+        if hits:
+            print(f"VIOLATION property={pid} replay={path}")
+            return 1
+        return 0
+    viols, coverage, assumptions = CHECKS[pid](ctx)
+    hits = [x for x in viols if x["clause"] == d["clause"]]
+    print(json.dumps({"clause": d["clause"], "reproduced": bool(hits), "cases": len(hits),
+                      "first": hits[0]["what"] if hits else None}, indent=1))
     if hits:
-        print(f"VIOLATION property={ctx.pid} replay={path}")
+        print(f"VIOLATION property={pid} replay={path}")
         return 1
     return 0
